@@ -407,6 +407,12 @@ def numeric_job(item):
     for _ in range(K):
         vec = [sum((A[i][j].cval() * vec[j] for j in range(d)), Fraction(0)) + (b[i].cval() if b is not None else 0) for i in range(d)]
         seq.append(vec)
+    # what the root precision allows: an error of order eps in a root or in a fitted coefficient is multiplied by rho^n
+    # (rho = spectral radius; the exact solution may not contain the dominant root at all, the rounded one does)
+    try:
+        rho = max([1.0] + [abs(complex(ev)) for ev in sp.Matrix([[q2sym(x, sp) for x in row] for row in A]).eigenvals(multiple=True)])
+    except Exception:  # noqa
+        rho = max(1.0, max(sum(abs(float(x.cval())) for x in row) for row in A))
     for mode in ({"numeric_roots": True}, {"numeric_croots": True}):
         try:
             with polar_iface.time_limit(60):
@@ -426,9 +432,9 @@ def numeric_job(item):
                             out["records"].append({"kind": "violation", "key": f"{name}|{list(mode)[0]}|m{i}", "tag": tag,
                                                    "what": f"result flagged exact but differs: {v} vs {ex}", "replay": {"system": name, "mode": mode, "n": k}})
                             break
-                        if diff > 1e-6 * (1 + abs(float(ex))):
+                        if diff > (1e-9 + 1e2 * 1e-10 * rho ** k) * (1 + abs(float(ex))):
                             out["records"].append({"kind": "violation", "key": f"{name}|{list(mode)[0]}|m{i}|envelope", "tag": tag,
-                                                   "what": f"rounded result deviates beyond the envelope: {v} vs {ex} (eps=1e-10)", "replay": {"system": name, "mode": mode, "n": k}})
+                                                   "what": f"rounded result deviates beyond the envelope 100 * eps * rho^n: {v} vs {ex} at n={k} (eps=1e-10, rho={rho:.3g})", "replay": {"system": name, "mode": mode, "n": k}})
                             break
         except polar_iface.JobTimeout:
             out["refusals"].append({"id": name, "type": "Timeout", "msg": str(mode), "where": ""})
